@@ -53,6 +53,20 @@ CLAIMS = {
              "arbitrary current point; m/l/c/v/y proven to leave their end point there; re proven to leave it alone). The "
              "serializer (shorthand selection, number formatting) and content-stream tokenisation are Out.",
         design_ref="§5 C08", note=NOTE, technique=BMC),
+    "C11": dict(
+        text="Object-stream member slicing only: for every /First, every increasing offset table (1..3 members) and every index the "
+             "byte range handed to the parser for member i is [first+off_i, first+off_{i+1}), the last member running to the end of "
+             "the data, and an index >= N is ObjStmOutOfBounds. The defect class the property is mainly about -- the top-level parse "
+             "of a member slice (bare integer at end of buffer) and indirect /Length -- lives in the object parser, which is beyond "
+             "the engine: Out, a change there is not detected.",
+        design_ref="§5 C11", note=NOTE, technique=BMC),
+    "C14": dict(
+        text="Numeric-extreme clause on the kernels that can be encoded: arbitrary usize object-stream offsets, xref-stream field "
+             "widths / counts (incl. /W [0 0 0]), byte_len, read_u64 widths, ragged predictor rows, short AES data: each returns a "
+             "value or an error for EVERY value of the numeric fields -- no panic, no unbounded loop (unwinding assertions). "
+             "Reference cycles through typed loading, /Prev loops, parser nesting depth and symbolic predictor geometry are Out "
+             "(measured: out of memory).",
+        design_ref="§5 C14", note=NOTE, technique=BMC),
     "C16": dict(
         text="ASCIIHex: decode_hex(encode_hex(d)) == d and the output is accepted with the same result by the reference decoder, "
              "for all d up to the bound. ASCII85: the encoder's output for every input up to the bound is accepted by a reference "
@@ -82,8 +96,6 @@ NOT_APPLICABLE = {
 # properties planned but not yet registered are listed as not applicable until their check exists
 PENDING = {
     "C18": "check under construction in this round (kernel-level obligations per DESIGN.md §5); not claimed until it discharges",
-    "C14": "check under construction in this round (kernel-level obligations per DESIGN.md §5); not claimed until it discharges",
-    "C11": "check under construction in this round (kernel-level obligations per DESIGN.md §5); not claimed until it discharges",
     "C04": "check under construction in this round (kernel-level obligations per DESIGN.md §5); not claimed until it discharges",
 }
 NOT_APPLICABLE.update(PENDING)
